@@ -398,7 +398,16 @@ func (r *run) Do(op string) string {
 	case "ip":
 		r.feed(src, pppoe.EtherTypePPPoESession, sess(sidOf(2), pppoe.ProtocolIP, []byte{0x45, 0, 0, 20}))
 	case "sweep":
-		r.s.CleanupExpiredForVerif(-1)
+		if len(f) == 1 {
+			r.s.CleanupExpiredForVerif(-1) // everything counts as idle
+		} else {
+			// virtual hours; the half hour keeps the real microseconds a sequence takes away from the comparison
+			h, _ := strconv.Atoi(f[1])
+			r.s.CleanupExpiredForVerif(int64(time.Duration(h)*time.Hour + 30*time.Minute))
+		}
+	case "age":
+		h, _ := strconv.Atoi(f[1])
+		r.s.AgeSessionsForVerif(time.Duration(h) * time.Hour)
 	default:
 		return "badop"
 	}
@@ -423,6 +432,34 @@ func (comp) Gen(rg *rand.Rand, tier string, emit func([]string)) {
 		ln := 4 + rg.Intn(14)
 		for j := 0; j < ln; j++ {
 			seq = append(seq, randOp(rg, macs, useRad))
+		}
+		emit(seq)
+	}
+	// the idle sweep against the clock: sessions of different idle times, traffic that refreshes some, timed passes
+	k := 200
+	if tier == "thorough" {
+		k = 4000
+	}
+	for i := 0; i < k; i++ {
+		seq := []string{fmt.Sprintf("new noradius %d", []int{28, 29}[rg.Intn(2)])}
+		live := 0
+		for j, ln := 0, 6+rg.Intn(14); j < ln; j++ {
+			switch x := rg.Intn(10); {
+			case x < 2 && live < 4:
+				live++
+				seq = append(seq, fmt.Sprintf("padr m%d cookie", live))
+			case x < 4 && live > 0:
+				n := 1 + rg.Intn(live)
+				seq = append(seq, fmt.Sprintf("pap m%d %d good accept", n, n))
+			case x < 6 && live > 0:
+				n := 1 + rg.Intn(live)
+				seq = append(seq, hx.Pick(rg, []string{fmt.Sprintf("ip m%d %d", n, n), fmt.Sprintf("lcp m%d %d echo", n, n),
+					fmt.Sprintf("ip m%d %d", 1+rg.Intn(4), n), fmt.Sprintf("padt m%d %d", 1+rg.Intn(4), n)}))
+			case x < 8:
+				seq = append(seq, fmt.Sprintf("age %d", 1+rg.Intn(3)))
+			default:
+				seq = append(seq, fmt.Sprintf("sweep %d", rg.Intn(5)))
+			}
 		}
 		emit(seq)
 	}
@@ -454,8 +491,12 @@ func randOp(rg *rand.Rand, macs int, useRad bool) string {
 		return fmt.Sprintf("pap %s %d %s %s", m, sid, hx.Pick(rg, []string{"good", "good", "bad", "empty"}), out)
 	case x < 92:
 		return fmt.Sprintf("ipcp %s %d %s", m, sid, hx.Pick(rg, []string{"creq-ip", "creq-dns", "creq-none", "cack", "cack"}))
-	case x < 98:
+	case x < 94:
 		return fmt.Sprintf("ip %s %d", m, sid)
+	case x < 97:
+		return fmt.Sprintf("age %d", 1+rg.Intn(3))
+	case x < 99:
+		return fmt.Sprintf("sweep %d", rg.Intn(4))
 	default:
 		return "sweep"
 	}
@@ -472,7 +513,7 @@ func exhaustive(emit func([]string)) {
 			"pap "+m+" 1 good accept", "pap "+m+" 1 good reject", "pap "+m+" 2 good accept", "pap "+m+" 1 bad down", "pap "+m+" 1 empty accept",
 			"ipcp "+m+" 1 creq-ip", "ipcp "+m+" 1 creq-none", "ipcp "+m+" 1 cack", "ipcp "+m+" 2 cack", "ip "+m+" 1")
 	}
-	alpha = append(alpha, "sweep", "lcp m1 1 cnak", "lcp m1 1 echo", "ipcp m1 1 creq-dns", "padr m2 nocookie")
+	alpha = append(alpha, "sweep", "age 2", "sweep 1", "lcp m1 1 cnak", "lcp m1 1 echo", "ipcp m1 1 creq-dns", "padr m2 nocookie")
 	for _, rad := range []string{"noradius", "radius"} {
 		var rec func(prefix []string, d int)
 		rec = func(prefix []string, d int) {
